@@ -516,3 +516,49 @@ def canon_text(text, amap):
         if not changed:
             break
     return text
+
+
+def path_feasible(path):
+    """False when the path tests a local flag against the constant it was assigned earlier on the same path
+    (`flag = True ... if not flag:`); everything else is considered feasible."""
+    known = {}
+    for ev in path.events:
+        if ev[0] == 'stmt':
+            s = ev[1]
+            if isinstance(s, ast.Assign):
+                for t in s.targets:
+                    for n in ast.walk(t):
+                        if isinstance(n, ast.Name):
+                            known.pop(n.id, None)
+                if len(s.targets) == 1 and isinstance(s.targets[0], ast.Name) and isinstance(s.value, ast.Constant) \
+                        and (isinstance(s.value.value, bool) or s.value.value is None):
+                    known[s.targets[0].id] = s.value.value
+            elif isinstance(s, (ast.AugAssign, ast.AnnAssign)):
+                for n in ast.walk(s.target):
+                    if isinstance(n, ast.Name):
+                        known.pop(n.id, None)
+            elif isinstance(s, (ast.For, ast.With)):
+                for n in ast.walk(s):
+                    if isinstance(n, ast.Name) and isinstance(n.ctx, ast.Store):
+                        known.pop(n.id, None)
+        elif ev[0] == 'test':
+            e, pol = ev[1], ev[2]
+            neg = False
+            while isinstance(e, ast.UnaryOp) and isinstance(e.op, ast.Not):
+                e, neg = e.operand, not neg
+            if isinstance(e, ast.Name) and e.id in known:
+                val = bool(known[e.id])
+                if neg:
+                    val = not val
+                if val != pol:
+                    return False
+            elif isinstance(e, ast.Compare) and len(e.ops) == 1 and isinstance(e.left, ast.Name) and e.left.id in known \
+                    and isinstance(e.ops[0], (ast.Is, ast.IsNot)) and isinstance(e.comparators[0], ast.Constant) and e.comparators[0].value is None:
+                val = known[e.left.id] is None
+                if isinstance(e.ops[0], ast.IsNot):
+                    val = not val
+                if neg:
+                    val = not val
+                if val != pol:
+                    return False
+    return True
